@@ -10,3 +10,4 @@ import VibeProof.Props.C23
 #print axioms VibeProof.C23.C23_parser_recursion_guarded
 #print axioms VibeProof.C23.C23_chain_depth_bounded
 #print axioms VibeProof.C23.C23_tree_building_loops_count_every_link
+#print axioms VibeProof.C23.C23_token_loops_exit_at_eof
